@@ -879,6 +879,11 @@ CLI_DOCS_CUSTOM = [
 ]
 
 
+CLI_DOCS_BLANK = [
+    "x\n <TL to='2001-01-01 00:00:00'> \nold\n </TL> \n <Rm name='a'> ra </Rm> \n <Rm name=' b '> \nrb\n </Rm> \n<Rm name='a'>not a tag: no blank in front\ny\n",
+]
+
+
 def cli_docs_job(ctx):
     """documents of the line generator under the default spelling: library clean / list vs. the binary fed through
     stdin / a file, targets via flags"""
@@ -912,6 +917,13 @@ def check_C20(ctx):
                                                               "Zones": zones[:1] if q else zones, "Langs": langs[:1], "OmitAll": False, "Part": "all", "Currents": TlaSet(["given"])}}],
             invariants=["Inv_C20"], ops=[], cli=True,
             cfg={"ds": "/* <", "de": "> */", "tl": "tl", "rm": "rm", "off": "+09:00", "now": [19000, 3600], "targets": []},
+            nontrivial=None)
+    # option values with leading / trailing blanks, upper-case tag names, an offset without colon
+    ctx.job("cli-blank-delims", gens=[{"base": "GenCli", "consts": {"Docs": [Chars(d) for d in CLI_DOCS_BLANK],
+                                                                   "TargetPool": [Chars("a"), Chars(" b ")],
+                                                                   "Zones": zones[:1], "Langs": langs[:1], "OmitAll": False, "Part": "stdout", "Currents": TlaSet(["given"])}}],
+            invariants=["Inv_C20"], ops=[], cli=True,
+            cfg={"ds": " <", "de": "> ", "tl": "TL", "rm": "Rm", "off": "-0330", "now": [19000, 3600], "targets": []},
             nontrivial=None)
     # growth beyond C20: no (usable) --time-limited-current, the process reads the system clock; the harness reads it before
     # and after the run, Conform!ConfWallClock compares with the library result (reported as DRIFT, never as a verdict)
